@@ -109,7 +109,7 @@ func verifC08Status(nsub int, anyClass bool) {
 	verifReach("end")
 }
 
-//verif:harness id=C08 tier=quick,thorough witness=end bounds="headers and body against the selected definition (200): required/optional header of type integer with symbolic minimum, or array of integers; header absent / any printable text of 1-2 bytes; content text/plain with string maxLength (uint64) or no content; Content-Type in {text/plain, text/html, absent}; body any 0-2 ASCII bytes; options ExcludeResponseBody/MultiError symbolic; body still readable afterwards"
+//verif:harness id=C08 tier=quick,thorough witness=end bounds="headers and body against the selected definition (200): required/optional header of type integer with symbolic minimum, or array of integers; header absent / any printable text of 1-2 bytes; content text/plain with string maxLength (uint64) or no content; Content-Type in {text/plain, text/plain; charset=utf-8, text/html, absent}; body any 0-2 ASCII bytes; options ExcludeResponseBody/MultiError symbolic; body still readable afterwards"
 func verifH_C08_content() {
 	d := "d"
 	resp := &openapi3.Response{Description: &d}
@@ -142,7 +142,7 @@ func verifH_C08_content() {
 		text = verifLeaf("h", 2, ",")
 		hdr["X-H"] = []string{text}
 	}
-	ct := []string{"text/plain", "text/html", ""}[verifChoose("ct", 3)]
+	ct := []string{"text/plain", "text/html", "", "text/plain; charset=utf-8"}[verifChoose("ct", 4)]
 	if ct != "" {
 		hdr["Content-Type"] = []string{ct}
 	}
@@ -168,7 +168,7 @@ func verifH_C08_content() {
 	}
 	bodyOK := true
 	if withContent && !opts.ExcludeResponseBody {
-		bodyOK = ct == "text/plain" && uint64(len(body)) <= maxLen
+		bodyOK = (ct == "text/plain" || ct == "text/plain; charset=utf-8") && uint64(len(body)) <= maxLen
 	}
 	verifAssert((err == nil) == (hdrOK && bodyOK), "C08 content: response passes iff required headers are present, header and body satisfy their schemas and the content type is declared")
 	// the body can still be read in full
